@@ -5,6 +5,7 @@ NOTES={
  "C09-A":"patch re-ported to the current HEAD by hand (the alias arm of make_ty_from_typeref gained the expanding_aliases guard in fix 56c8c4e); same one-line omission",
  "C15-B":"demonstration adapted: since fix e031f7e a column past the end of a line is clamped, so the un-appliable edit in step 2 is now a LINE beyond the end of the document",
  "C10-B":"caught by C02's prefix-operator-in-pattern ladder and by C10's deep-nesting cases (2 MiB query stack)",
+ "C04-D":"third round; first missed (guards were two atoms around one operator); caught since arithmetic guards whose last operand is a number literal right before `->`",
  "C06-D":"third round; first missed (every generated file belonged to a package); caught since workspaces with a source root outside the package graph — which also exposed a genuine defect (fix 1a57c3c)",
  "C08-D":"third round; first missed; caught since a second project with its own copy of a same-named dependency is opened in the same session",
  "C09-D":"third round; first missed; caught since `use` binders spelled like a variable used in their own call",
